@@ -37,7 +37,7 @@ def main(ck, tier, w):
                       'is multi-byte or invalid UTF-8, or is empty')
     rng = random.Random(seed)
     jobs = []
-    for i in range(24 if quick else 300):
+    for i in range(60 if quick else 400):
         r0 = random.Random('%d-c16-%d' % (seed, i))
         coin = r0.choice(list(btc.COINS))
         jobs.append((i, coin, r0))
